@@ -405,53 +405,38 @@ func c06PerCall(c *core.Ctx, r *core.Reporter) {
 		r.Unknown("PlanCache.Get", token.NoPos, "Get / normalizeDocument / store / lookup not found")
 		return
 	}
-	// this call's synthetic arguments: the map-typed result of normalizeDocument
-	var synth ssa.Value
-	for _, site := range core.CallsTo(get, norm, false) {
-		call, _ := site.(*ssa.Call)
-		if call == nil {
-			continue
-		}
-		for _, ref := range *call.Referrers() {
-			if ex, ok := ref.(*ssa.Extract); ok {
-				if _, isMap := ex.Type().Underlying().(*types.Map); isMap {
-					synth = ex
-				}
-			}
-		}
-	}
-	if synth == nil {
-		r.Unknown("PlanCache.Get/synthArgs", get.Pos(), "result of normalizeDocument not found")
+	region := c.Region(get) // Get, or the phases it has been split into
+	if len(c.RegionCallsTo(get, norm)) == 0 {
+		r.Unknown("PlanCache.Get/synthArgs", get.Pos(), "Get no longer normalises the document")
 		return
 	}
-	// stores of it into the SynthArgs field of a local PlanResult
+	// The per-call synthetic arguments are the only thing ever stored into PlanResult.SynthArgs (the map normalizeDocument
+	// returns for this call). Every such store, with the local PlanResult it goes into:
 	type attach struct {
 		st    *ssa.Store
-		owner ssa.Value // the local PlanResult cell
+		owner ssa.Value
 	}
 	var attaches []attach
-	core.Instrs(get, func(in ssa.Instruction) {
-		st, ok := in.(*ssa.Store)
-		if !ok {
-			return
-		}
-		fa, ok := st.Addr.(*ssa.FieldAddr)
-		if !ok {
-			return
-		}
-		if f := core.FieldOf(fa); f == nil || core.N(f) != "SynthArgs" {
-			return
-		}
-		for _, o := range core.Origins(st.Val) {
-			if o == synth {
-				attaches = append(attaches, attach{st, fa.X})
+	for _, g := range region {
+		core.Instrs(g, func(in ssa.Instruction) {
+			st, ok := in.(*ssa.Store)
+			if !ok || core.IsNilConst(st.Val) {
+				return
 			}
-		}
-		if st.Val == synth {
+			fa, ok := st.Addr.(*ssa.FieldAddr)
+			if !ok {
+				return
+			}
+			if f := core.FieldOf(fa); f == nil || core.N(f) != "SynthArgs" || core.TypeName(fa.X.Type()) != "PlanResult" {
+				return
+			}
 			attaches = append(attaches, attach{st, fa.X})
+		})
+	}
+	reaches := func(a, b ssa.Instruction) bool { // a may execute before b (same function)
+		if a.Parent() != b.Parent() {
+			return false
 		}
-	})
-	reaches := func(a, b ssa.Instruction) bool { // a may execute before b
 		if a.Block() == b.Block() {
 			return core.InstrIndex(a) < core.InstrIndex(b)
 		}
@@ -463,19 +448,32 @@ func c06PerCall(c *core.Ctx, r *core.Reporter) {
 		}
 		return nil
 	}
-	// (i) nothing handed to store carries this call's synthetic arguments
+	// (i) nothing handed to store carries synthetic arguments
 	nStore := 0
-	for _, site := range core.CallsTo(get, store, false) {
+	for _, site := range c.RegionCallsTo(get, store) {
 		nStore++
 		bad := false
 		for _, a := range site.Common().Args {
-			if core.TypeName(a.Type()) != "PlanResult" {
-				continue
+			// the PlanResult itself, or a struct literal that contains one (an entry bundling schema and result)
+			cells := []ssa.Value{cellOf(a)}
+			if u, ok := a.(*ssa.UnOp); ok {
+				if al, ok := u.X.(*ssa.Alloc); ok {
+					for _, ref := range *al.Referrers() {
+						if fa, ok := ref.(*ssa.FieldAddr); ok && core.TypeName(fa.Type().(*types.Pointer).Elem()) == "PlanResult" && fa.Referrers() != nil {
+							for _, rr := range *fa.Referrers() {
+								if st, ok := rr.(*ssa.Store); ok && st.Addr == ssa.Value(fa) {
+									cells = append(cells, cellOf(st.Val))
+								}
+							}
+						}
+					}
+				}
 			}
-			cell := cellOf(a)
 			for _, at := range attaches {
-				if cell != nil && at.owner == cell && reaches(at.st, site) {
-					bad = true
+				for _, cell := range cells {
+					if cell != nil && at.owner == cell && reaches(at.st, site) {
+						bad = true
+					}
 				}
 			}
 		}
@@ -486,32 +484,27 @@ func c06PerCall(c *core.Ctx, r *core.Reporter) {
 	if nStore == 0 {
 		r.Unknown("PlanCache.Get/store", get.Pos(), "Get never stores")
 	}
-	// (ii) the hit path and the planned miss path both hand back this call's synthetic arguments
-	var hit *ssa.BasicBlock
-	for _, site := range core.CallsTo(get, lookup, false) {
+	// (ii) the hit path and the planned miss path both hand back synthetic arguments
+	hits := map[*ssa.Function]*ssa.BasicBlock{} // per function: the block entered when the normalised lookup hit
+	for _, site := range c.RegionCallsTo(get, lookup) {
 		call, _ := site.(*ssa.Call)
 		if call == nil {
 			continue
 		}
 		for _, ref := range *call.Referrers() {
-			// the hit flag: second result, or the boolean field of a result struct
-			var flag ssa.Value
+			// the hit flag: second result, or the boolean field of a result struct (read directly or from a local copy)
+			var flags []ssa.Value
 			switch x := ref.(type) {
 			case *ssa.Extract:
 				if x.Index == 1 {
-					flag = x
+					flags = append(flags, x)
 				}
 			case *ssa.Field:
 				if b, ok := x.Type().Underlying().(*types.Basic); ok && b.Kind() == types.Bool {
-					flag = x
+					flags = append(flags, x)
 				}
-			}
-			var flags []ssa.Value
-			if flag != nil {
-				flags = append(flags, flag)
-			}
-			if st, ok := ref.(*ssa.Store); ok { // the result struct kept in a local: loads of its boolean field
-				if al, ok := st.Addr.(*ssa.Alloc); ok {
+			case *ssa.Store:
+				if al, ok := x.Addr.(*ssa.Alloc); ok {
 					for _, ar := range *al.Referrers() {
 						fa, ok := ar.(*ssa.FieldAddr)
 						if !ok || fa.Referrers() == nil {
@@ -530,31 +523,45 @@ func c06PerCall(c *core.Ctx, r *core.Reporter) {
 			}
 			for _, fl := range flags {
 				for _, u := range *fl.Referrers() {
-					if iff, ok := u.(*ssa.If); ok {
-						hit = iff.Block().Succs[0]
+					iff, ok := u.(*ssa.If)
+					if !ok {
+						continue
+					}
+					// `if ok {hit}` or `if !ok {miss; return}`: the hit side is the one the flag's truth leads to
+					hits[call.Parent()] = iff.Block().Succs[0]
+				}
+				// `if !ok { return … }` negates the flag first
+				for _, u := range *fl.Referrers() {
+					if not, ok := u.(*ssa.UnOp); ok && not.Op == token.NOT {
+						for _, u2 := range *not.Referrers() {
+							if iff, ok := u2.(*ssa.If); ok {
+								hits[call.Parent()] = iff.Block().Succs[1]
+							}
+						}
 					}
 				}
 			}
 		}
 	}
-	returned := func(at attach) (onHit, onMiss bool) {
-		for _, ret := range core.Returns(get) {
-			if len(ret.Results) != 1 || cellOf(core.RetVal(ret, 0)) != at.owner || !reaches(at.st, ret) {
-				continue
-			}
-			if hit != nil && hit.Dominates(ret.Block()) {
-				onHit = true
-			} else {
-				onMiss = true
-			}
-		}
-		return
-	}
 	reattached, finalRet := false, false
 	for _, at := range attaches {
-		h, m := returned(at)
-		reattached = reattached || h
-		finalRet = finalRet || m
+		g := at.st.Parent()
+		for _, ret := range core.Returns(g) {
+			returnsCell := false
+			for i := range ret.Results {
+				if cellOf(core.RetVal(ret, i)) == at.owner {
+					returnsCell = true
+				}
+			}
+			if !returnsCell || !reaches(at.st, ret) {
+				continue
+			}
+			if hit := hits[g]; hit != nil && hit.Dominates(ret.Block()) {
+				reattached = true
+			} else {
+				finalRet = true
+			}
+		}
 	}
 	r.Check(reattached, "PlanCache.Get/hit-synthArgs", get.Pos(), "the hit path hands back this call's own synthetic arguments",
 		"on a normalised cache hit the result's SynthArgs are not replaced by this call's values: the request executes with missing or foreign literal values")
